@@ -42,6 +42,10 @@ const SAMPLED_RANGES_KEY: &str = "KEY.SAMPLED_RANGES";
 const HEADER_RANGES_KEY: &str = "KEY.HEADER_RANGES";
 const PRUNED_RANGES_KEY: &str = "KEY.PRUNED_RANGES";
 
+#[cfg(eigerco_lumina_verif)]
+#[path = "redb_store_verif_hooks.rs"]
+pub(crate) mod verif_hooks;
+
 /// A [`Store`] implementation based on a [`redb`] database.
 #[derive(Debug)]
 pub struct RedbStore {
